@@ -236,6 +236,8 @@ def r11_7(prog: Program, rep: Report, rule="R11.7"):
             for x in T.walk(tm):
                 if boundary_sub(x):
                     everywhere = True
+                elif T.is_call_to(x, "re.sub") and len(x[2]) >= 3 and x[2][1] == ("const", "") and T.contains(x[2][0], lambda y: T.is_call_to(y, "re.escape")):
+                    anywhere.append(T.show(x)[:80])  # a substitution without the boundary condition is str.replace
                 if x[0] == "call" and x[1][0] == "attr" and x[1][2] in ("removeprefix", "lstrip", "partition", "split") and x[2] and T.contains(x[2][0], lambda y: y[0] == "fmt" or y == ("const", ".")):
                     first_only = True
     if not everywhere and not first_only and not anywhere:
